@@ -99,6 +99,13 @@ def grammar_cases(job):
         opts = dict(job.get("opts", {}))
         consume = job.get("consume", True)
         parser, err = real.build("glr", text, tables=tables, ws=ws, consume_input=consume, **opts)
+        if parser is not None and job.get("pretable"):
+            # the same parser constructed from a precomputed table: every GLR default must be the same
+            try:
+                with real.quiet():
+                    parser = real.GLRParser(parser.grammar, table=parser.table, ws=ws, consume_input=consume)
+            except Exception as e:  # noqa: BLE001
+                parser, err = None, "%s: %s" % (type(e).__name__, e)
         base = {
             "gtext": text,
             "tables": tables,
@@ -116,6 +123,6 @@ def grammar_cases(job):
                             sample_trees=job.get("sample_trees", 0))
             c.update(base)
             c["tbl"] = tbl
-            c["name"] = "%s [%s%s] @ %r" % (gen.gname(g), tables, "" if consume else ",prefix", w)
+            c["name"] = "%s [%s%s%s] @ %r" % (gen.gname(g), tables, "" if consume else ",prefix", ",table=precomputed" if job.get("pretable") else "", w)
             out.append(c)
     return out
